@@ -15,7 +15,7 @@ ASSUMPTIONS = ["an edit script (leading unchanged lines, hunks of context/insert
                "follow the unified-diff convention (1-based, counted on each side)",
                "lines are newline-terminated byte strings with symbolic content"]
 OUTSIDE = ["diff generation (patiencediff, compiled)", "parsing of headers and ranges (crates/patch: parse_range, "
-           "iter_lines_handle_nl)", "'\\ No newline at end of file' handling", "scripts longer than the bound"]
+           "iter_lines_handle_nl - the latter replaced by a model compared with it before each run)", "scripts longer than the bound"]
 
 KINDS = ["context", "insert", "remove"]
 
@@ -152,6 +152,76 @@ def ob_lines(cx):
     cx.cover(kind)
 
 
+NO_NL = b"\\ No newline at end of file\n"
+
+
+def m_handle_nl(lines):
+    """model of patches.iter_lines_handle_nl (Rust): a marker line takes the final newline off the line before it"""
+    last = None
+    for line in lines:
+        if len(line) == len(NO_NL) and bool(line == NO_NL):
+            if last is None or not bool(last[len(last) - 1:] == b"\n"):
+                raise AssertionError("marker without a terminated line before it")
+            last = last[:len(last) - 1]
+            continue
+        if last is not None:
+            yield last
+        last = line
+    if last is not None:
+        yield last
+
+
+def setup_hunks(ls):
+    from breezy import patches
+    for sample in ([b" a\n", b"-b\n", NO_NL, b"+b\n"], [b" a\n"], [b"-x\n", NO_NL, b"+y\n", NO_NL], []):
+        if list(patches.iter_lines_handle_nl(iter(sample))) != list(m_handle_nl(sample)):
+            raise RuntimeError("iter_lines_handle_nl model differs on %r" % (sample,))
+
+
+def ob_hunk_roundtrip(cx):
+    """Hunk.as_bytes -> iter_hunks: a hunk whose old and / or new text ends WITHOUT a newline (the last old-side line, the
+    last new-side line, or both) is written with the 'No newline at end of file' markers and parses back to the same lines."""
+    P = cx.mod(PT)
+    n = cx.choose("nlines", 1, cx.p("hlen"))
+    kinds = [cx.pick("kind%d" % i, KINDS) for i in range(n)]
+    last_old = max([i for i, k in enumerate(kinds) if k != "insert"], default=None)
+    last_new = max([i for i, k in enumerate(kinds) if k != "remove"], default=None)
+    old_open = last_old is not None and bool(cx.choose("old_text_unterminated", 0, 1))
+    new_open = last_new is not None and bool(cx.choose("new_text_unterminated", 0, 1))
+    if last_old is not None and last_old == last_new and old_open != new_open:
+        cx.assume(False)                      # a shared last (context) line is the end of both texts
+    if old_open and kinds[last_old] == "context" and last_new != last_old:
+        cx.assume(False)                      # an unterminated context line must end the new text too
+    if new_open and kinds[last_new] == "context" and last_new != last_old:
+        cx.assume(False)
+    lines = []
+    for i, kd in enumerate(kinds):
+        body = cx.bytes("c%d" % i, 1, b"ab\\ ")
+        term = b"" if ((old_open and i == last_old) or (new_open and i == last_new)) else b"\n"
+        cls = {"context": P.ContextLine, "insert": P.InsertLine, "remove": P.RemoveLine}[kd]
+        lines.append(cls(body + term))
+    nold = sum(1 for k in kinds if k != "insert")
+    nnew = sum(1 for k in kinds if k != "remove")
+    hk = P.Hunk(1, nold, 1, nnew)
+    hk.lines = list(lines)
+    text = hk.as_bytes()
+    back = list(P.iter_hunks(m_handle_nl(text.splitlines(True))))
+    cx.require(len(back) == 1, "the written hunk parses to %d hunks" % len(back))
+    h2 = back[0]
+    cx.require((h2.orig_pos, h2.orig_range, h2.mod_pos, h2.mod_range) == (1, nold, 1, nnew), "hunk ranges changed")
+    cx.require(len(h2.lines) == n, "the written hunk has %d lines, it parses to %d" % (n, len(h2.lines)))
+    for l1, l2 in zip(lines, h2.lines):
+        cx.require(type(l1) is type(l2) and len(l1.contents) == len(l2.contents) and cx.truth(l1.contents == l2.contents),
+                   "a hunk line changed on the way through its written form")
+    if old_open != new_open:
+        cx.cover("one_side_unterminated")
+    if old_open and new_open:
+        cx.cover("both_unterminated")
+    if not old_open and not new_open:
+        cx.cover("terminated")
+    cx.observe("text", text)
+
+
 DF = "breezy.diff"
 
 
@@ -259,6 +329,10 @@ def obligations(tier):
         Ob("conflict", ob_conflict, [PT], p, to, 2 if q else 1, ["conflict", "terminator_only"],
            bounds="one hunk of <= %(hlen)d lines, one perturbed old line inside the hunk (different content, or the same "
                   "content without its final newline at the end of the text)" % p),
+        Ob("hunk_roundtrip", ob_hunk_roundtrip, [PT], dict(hlen=3 if q else 4), to, 1,
+           ["terminated", "one_side_unterminated", "both_unterminated"], setup=setup_hunks,
+           bounds="one hunk of <= %d lines (context / insert / remove, symbolic 1-byte contents incl. backslash and space), the old "
+                  "and / or the new text ending without a newline" % (3 if q else 4)),
         Ob("line_format", ob_lines, [PT], p, to, 1, KINDS,
            bounds="line contents <= %(lcontent)d arbitrary bytes; positions/ranges < 10^5" % p),
         Ob("generate_parse_apply", ob_generate, [PT, DF], dict(lline=1, glines=5 if q else 7, contexts=[0, 1, 3]), to,
